@@ -207,6 +207,10 @@ pub fn wire_verdict(wire: &[(usize, Bytes)]) -> WireVerdict {
         if crc32c::crc32c(&z).to_le_bytes() != p[8..12] { viol = Some(format!("crc@{idx}")); fails.push(("crc:bad-checksum-on-own-packet".into(), format!("packet {idx}"))); break; }
         let vtag = u32::from_be_bytes([p[4], p[5], p[6], p[7]]);
         let chunks = chunks_of(p);
+        // oracle only (not part of the verdict text shared with the Lean reader): a datagram without a chunk, or a DATA chunk
+        // without user data and without the B|E pair of an empty message — e.g. a gap-acked record (payload freed)
+        // that was still marked for retransmission
+        if chunks.is_empty() { fails.push(("wire:datagram-without-chunks".to_string(), format!("packet {idx} from {}: {} bytes, no chunk", ["A", "B"][*s], p.len()))); }
         let is_init = chunks.first().map(|c| c.0 == 1).unwrap_or(false);
         let ok = if is_init { vtag == 0 } else { tag[1 - *s] == Some(vtag) };
         if !ok { viol = Some(format!("vtag@{idx}")); fails.push(("vtag:not-the-peers-tag".into(), format!("packet {idx} from {}: tag {vtag:#x}, peer announced {:?}", ["A", "B"][*s], tag[1 - *s]))); break; }
